@@ -224,6 +224,12 @@ def run(rep, tier):
     # of VM": the context rules of C09 that concern this engine are obligations here too
     import props.c09 as c09
     c09.run(rep, tier, parts=("jit", "ctor"))
+    # local calls and helper calls are compiled code too: the JIT-side rules of C07 (native call sequence) and
+    # C08 (argument registers, result, alignment, lookup key) are obligations of "same result as the interpreter"
+    import props.c07 as c07
+    import props.c08 as c08
+    c07.run(rep, tier, parts=("jit",))
+    c08.run(rep, tier, parts=("jit",))
     rep.trust("rustc front end / typed THIR", "x86model.py: decoder and semantics of the opcode subset, written from the Intel SDM",
               "the hardware", "imodel: the interpreter summaries validated against the ISA under C01")
     rep.assume("all memory accesses of the compared paths are in bounds (the JIT performs no checks by documented design)",
